@@ -1391,6 +1391,60 @@ def rule_deque_links(ctx):
                     nid, '; '.join(bad[:3]), [fmt(c)[:40] + '==' + str(v) for c, v in p.conds][:6]),
                     where=ctx.where(nid), expected='unlink: prev.next (or head) = next, next.prev (or tail) = prev, node.prev = node.next = None; push / move-to-back: '
                     'node.prev = old tail, node.next = None, old tail.next (or head) = tail = node')
+    # the membership test the callers guard every unsafe list operation with (PTR-guarded-call) answers, under the same hypothesis, exactly "is a member":
+    # true iff the node has a predecessor or is the head (a node outside the list has prev == None and is not the head)
+    nmem = 0
+    for nid in sorted(n_ for n_ in R.member if n_.startswith('common::deque::Deque::') and prog.bodies[n_].kind != 'closure'):
+        b = prog.bodies[nid]
+        node_params = [i for i in range(2, b.argc + 1) if 'DeqNode' in b.locals[i]['ty']['s']]
+        if not node_params:
+            continue
+        N, D = _pcore(('param', node_params[0])), ('param', 1)
+        P, Hd = ('fld', N, 'prev'), ('fld', D, 'head')
+
+        def _mod_pure(n_, bb, d):
+            return bool((n_.startswith('common::deque::') or ' as common::deque::' in n_) and d < 3 and not bb.loops() and
+                        not any(e[0] == 'write' for e in ctx.eff.transitive(n_)))
+        try:
+            mpaths = [p for p in ctx.symex(inline_depth=3, loop_visits=2, inline_pred=_mod_pure).run(nid) if not p.diverged]
+        except PathLimit:
+            raise CheckFailure('DEQUE-links: path limit in %s' % nid)
+        for p in mpaths:
+            known = {}
+            for c, v in p.conds:
+                if isinstance(c, tuple) and c and c[0] == 'discr':
+                    known[_pcore(c[1])] = v
+                if isinstance(c, tuple) and len(c) == 4 and c[0] == 'cmp' and c[1] in ('eq', 'ne') and isinstance(v, bool):
+                    for x, y in ((c[2], c[3]), (c[3], c[2])):
+                        if isinstance(x, tuple) and x[0] == 'c' and x[1] in (0, 1) and isinstance(y, tuple) and y and y[0] == 'discr':
+                            holds = v if c[1] == 'eq' else not v
+                            known[_pcore(y[1])] = x[1] if holds else 1 - x[1]
+            def _is_head_eq(t):
+                if not (isinstance(t, tuple) and t and t[0] == 'call' and str(t[1]).endswith('ptr::eq') and len(t[2]) == 2):
+                    return False
+                a_, b_ = _pcore(t[2][0]), _pcore(t[2][1])
+                return {a_, b_} == {N, ('payload', Hd, 'Some', 0)}
+            head_eq = None
+            for c, v in p.conds:
+                if _is_head_eq(c) and isinstance(v, bool):
+                    head_eq = v
+            prev, head = known.get(P), known.get(Hd)
+            ret = p.ret
+            if ret == ('c', True):
+                ok = prev == 1 or head_eq is True
+            elif ret == ('c', False):
+                ok = prev == 0 and (head == 0 or head_eq is False)
+            else:
+                ok = prev == 0 and _is_head_eq(ret)       # "no predecessor: a member iff it is the head"
+            nmem += 1
+            r.instance(function=nid, clause='membership-test', returns=fmt(ret)[:40], prev={0: 'None', 1: 'Some'}.get(prev), head_eq=head_eq, ok=ok)
+            if not ok:
+                r.violate(nid, 'list-links', 'membership-test', 'a path of the membership test %s returns %s with prev %s / is-head %s: under the list invariant a node is a member '
+                          'iff it has a predecessor or is the head; any other answer lets a guarded caller skip the unlink of a member (a leaked node, a stale LRU position) or '
+                          'unlink a node that is not in the list' % (nid, fmt(ret)[:40], {0: 'None', 1: 'Some'}.get(prev, 'untested'), head_eq), where=ctx.where(nid),
+                          expected='node.prev.is_some() || self.is_head(node)')
+    if nmem < 2:
+        raise CheckFailure('DEQUE-links: the membership test of the list (bool, reads DeqNode.prev) was not found or has fewer than two paths')
     r.notes.append('%d link-writing paths of %d list operations judged against the post-state of a well-formed list' % (npaths, len(fns)))
     r.require_floor(6, 'link-writing list-operation paths')
     return r
